@@ -83,3 +83,9 @@ def scanTreeLevelsRev {β γ : Type} (f : Option β → γ → β) (parents : Li
   (List.range parents.length).map fun i => ys.getD (order.idxOf i) zero
 
 end Brax.Kin
+
+namespace Brax.Gd
+/-- the carry functions of the reverse scans in brax (`crb_fn`, `cfrc_fn`): `if child is not None: body += child` -/
+def addF {M : Type} (add : M → M → M) : Option M → M → M :=
+  fun c a => match c with | none => a | some s => add a s
+end Brax.Gd
